@@ -1486,6 +1486,75 @@ impl StoredStatus {
 }
 
 
+//------------ Verification hooks (C27, C28) ---------------------------------
+
+#[cfg(routinator_verif)]
+impl StoredPointHeader {
+    /// Creates a header from all its parts.
+    pub fn verif_from_parts(
+        manifest_uri: uri::Rsync,
+        rpki_notify: Option<uri::Https>,
+        success: bool,
+        time: Time,
+    ) -> Self {
+        Self {
+            manifest_uri, rpki_notify,
+            update_status: if success {
+                UpdateStatus::Success(time)
+            }
+            else {
+                UpdateStatus::LastAttempt(time)
+            }
+        }
+    }
+
+    /// Returns all parts of the header.
+    pub fn verif_parts(
+        &self
+    ) -> (&uri::Rsync, Option<&uri::Https>, bool, Time) {
+        let (success, time) = match self.update_status {
+            UpdateStatus::Success(time) => (true, time),
+            UpdateStatus::LastAttempt(time) => (false, time),
+        };
+        (&self.manifest_uri, self.rpki_notify.as_ref(), success, time)
+    }
+
+    /// Exposes `UpdateStatus::read`.
+    pub fn verif_status_read(
+        reader: &mut impl io::Read
+    ) -> Result<(bool, Time), ParseError> {
+        UpdateStatus::read(reader).map(|status| match status {
+            UpdateStatus::Success(time) => (true, time),
+            UpdateStatus::LastAttempt(time) => (false, time),
+        })
+    }
+
+    /// Exposes `UpdateStatus::write`.
+    pub fn verif_status_write(
+        success: bool, time: Time, writer: &mut impl io::Write
+    ) -> Result<(), io::Error> {
+        if success {
+            UpdateStatus::Success(time).write(writer)
+        }
+        else {
+            UpdateStatus::LastAttempt(time).write(writer)
+        }
+    }
+}
+
+#[cfg(routinator_verif)]
+impl StoredPoint {
+    /// Exposes `StoredPoint::open`.
+    pub fn verif_open(
+        path: PathBuf,
+        manifest_uri: &uri::Rsync,
+        rpki_notify: Option<&uri::Https>,
+    ) -> Result<Self, Failed> {
+        Self::open(path, manifest_uri, rpki_notify)
+    }
+}
+
+
 //============ Error Types ===================================================
 
 //------------ UpdateError ---------------------------------------------------
